@@ -1,5 +1,55 @@
-From PV Require Import Lib.Base Model.Prng Model.Core.
+(* C05 -- p-value, observed statistic and returned distribution are mutually consistent.
+   Statements only; proofs in Proofs/CoreProofs.v. *)
+From PV Require Import Lib.Base Model.Prng Model.Core Model.Stratified Proofs.CoreProofs.
 Open Scope Q_scope.
-Theorem C05_placeholder_pvalue_def : forall c H reps, perm_pvalue c H reps = (qn H + qn c) / (qn reps + qn c).
-Proof. reflexivity. Qed.
-Print Assumptions C05_placeholder_pvalue_def.
+
+(* core.py's table pUp + plus1/(reps+plus1) ... is the textbook (H+c)/(reps+c); two-sided doubles and caps *)
+Theorem C05_tail_table_is_textbook : forall hU hD reps plus1,
+  the_pvalue Greater hU hD reps plus1 == perm_pvalue (cc plus1) hU reps /\
+  the_pvalue Less hU hD reps plus1 == perm_pvalue (cc plus1) hD reps /\
+  the_pvalue TwoSided hU hD reps plus1 ==
+    Qmin 1 ((2 # 1) * Qmin (perm_pvalue (cc plus1) hU reps) (perm_pvalue (cc plus1) hD reps)).
+Proof.
+  intros. split; [apply the_pvalue_greater|split; [apply the_pvalue_less|apply the_pvalue_two_sided]].
+Qed.
+Print Assumptions C05_tail_table_is_textbook.
+
+(* every completed run: len(dist) = reps and p is that formula evaluated on the returned dist and statistic.
+   The model has a single code path for keep_dist True/False (the library's two branches compute the same
+   counts); that the implementation's branches agree is checked on identical draws by the harness *)
+Theorem C05_p_from_dist : forall s pot nx a reps plus1 t r,
+  two_sample_core s pot nx a reps plus1 t = Ok r ->
+  length (dist r) = reps /\ pval r == pv_textbook a (cc plus1) (tstat r) (dist r).
+Proof. exact two_sample_core_pvalue. Qed.
+Print Assumptions C05_p_from_dist.
+Theorem C05_p_from_dist_one_sample : forall x y s a reps plus1 t r,
+  one_sample x y s a reps plus1 t = Ok r ->
+  length (dist r) = reps /\ pval r == pv_textbook a (cc plus1) (tstat r) (dist r).
+Proof. exact one_sample_pvalue. Qed.
+Print Assumptions C05_p_from_dist_one_sample.
+Theorem C05_p_from_dist_corr_ksample : forall a tst sims plus1,
+  corr_pvalue a tst sims plus1 == pv_textbook a (cc plus1) tst sims /\
+  ksample_pvalue tst sims plus1 = pv_textbook Greater (cc plus1) tst sims.
+Proof. intros. split; [apply corr_pvalue_textbook|reflexivity]. Qed.
+Print Assumptions C05_p_from_dist_corr_ksample.
+
+(* c/(reps+c) <= p <= 1: never 0 with plus1 on; in [0,1] otherwise *)
+Theorem C05_pvalue_bounds : forall a c tst d, (0 < length d + c)%nat ->
+  qn c / (qn (length d) + qn c) <= pv_textbook a c tst d <= 1.
+Proof. exact pv_textbook_bounds. Qed.
+Print Assumptions C05_pvalue_bounds.
+
+(* stratified tests: the 'greater' entry of their table is the textbook value ... *)
+Theorem C05_stratified_greater_is_textbook : forall hits reps plus1,
+  strat_pvalue Greater hits reps plus1 == perm_pvalue (cc plus1) hits reps.
+Proof. intros. unfold strat_pvalue, perm_pvalue, Qdiv. ring. Qed.
+Print Assumptions C05_stratified_greater_is_textbook.
+
+(* ... but 'less' and 'two-sided' are built from the upper-tail count only (KNOWN FINDING, recorded in
+   KNOWN_FINDINGS.json): with all simulated values tied with the observed one (hits = reps), plus1 on,
+   the faithful model returns 0 where the property demands 1 *)
+Theorem C05_stratified_less_two_sided_refuted :
+  strat_pvalue Less 3 3 true == 0 /\ strat_pvalue TwoSided 3 3 true == 0 /\
+  pv_textbook Less 1 0 [0; 0; 0] == 1 /\ pv_textbook TwoSided 1 0 [0; 0; 0] == 1.
+Proof. vm_compute. repeat split; reflexivity. Qed.
+Print Assumptions C05_stratified_less_two_sided_refuted.
